@@ -659,3 +659,81 @@ func init() {
 	mut("C04", "(benign) ApplyBlock preallocates the updated/added leaf slices", false, "",
 		Edit{"consensus/application.go", "\tvar updated, added []elementLeaf\n\tforEachAppliedElement(ms.sces", "\tupdated := make([]elementLeaf, 0, len(ms.sces))\n\tadded := make([]elementLeaf, 0, len(ms.sces))\n\tforEachAppliedElement(ms.sces"})
 }
+
+func init() {
+	// ---- C03: Foundation update existence test (flag truth conditions) ----
+	v := "consensus/validation.go"
+	acc := "signed = signed || (sig.ParentID == types.Hash256(sci.ParentID) && sig.CoveredFields.WholeTransaction)"
+	mut("C03", "Foundation update: any whole-transaction signature counts (not the key holder's)", true, "auth-guard|v1-foundation:sig-parent",
+		Edit{v, acc, "signed = signed || sig.CoveredFields.WholeTransaction"})
+	mut("C03", "Foundation update: a partial signature of the key holder counts", true, "auth-guard|v1-foundation:whole-transaction",
+		Edit{v, acc, "signed = signed || sig.ParentID == types.Hash256(sci.ParentID)"})
+	mut("C03", "Foundation update: the void address counts as a current key", true, "auth-guard|v1-foundation:current-key",
+		Edit{v, "uh != ms.base.FoundationSubsidyAddress && uh != ms.base.FoundationManagementAddress {", "uh != ms.base.FoundationSubsidyAddress && uh != ms.base.FoundationManagementAddress && uh != types.VoidAddress {"})
+	mut("C03", "Foundation update: the flag starts out true", true, "auth-guard|v1-foundation:current-key",
+		Edit{v, "\t\t\tvar signed bool\n", "\t\t\tsigned := len(txn.MinerFees) == 0\n"})
+	mut("C03", "(benign) Foundation update: flag set in a nested if instead of ||-accumulation", false, "",
+		Edit{v, acc, "if sig.ParentID == types.Hash256(sci.ParentID) && sig.CoveredFields.WholeTransaction {\n\t\t\t\t\t\tsigned = true\n\t\t\t\t\t}"})
+	mut("C03", "nested-if form, parent comparison dropped", true, "auth-guard|v1-foundation:sig-parent",
+		Edit{v, acc, "if sig.CoveredFields.WholeTransaction {\n\t\t\t\t\t\tsigned = true\n\t\t\t\t\t}"})
+}
+
+func init() {
+	// ---- C19: RHP2 frame layout (linear forms) and error delivery ----
+	t := "rhp/v2/transport.go"
+	mut("C19", "writeMessage pads before reserving the tag (payload truncated near the minimum size)", true, "frame-layout|v2-send:payload-covers-encoding",
+		Edit{t, "\tmsgSize := t.outbuf.Len() + t.aead.Overhead()\n\tif msgSize < minMessageSize {\n\t\tmsgSize = minMessageSize\n\t}", "\tmsgSize := t.outbuf.Len()\n\tif msgSize < minMessageSize {\n\t\tmsgSize = minMessageSize\n\t} else {\n\t\tmsgSize += t.aead.Overhead()\n\t}"})
+	mut("C19", "(benign) writeMessage computes the padded size with max", false, "",
+		Edit{t, "\tmsgSize := t.outbuf.Len() + t.aead.Overhead()\n\tif msgSize < minMessageSize {\n\t\tmsgSize = minMessageSize\n\t}", "\tmsgSize := max(t.outbuf.Len()+t.aead.Overhead(), minMessageSize)"})
+	mut("C19", "length prefix counts the prefix itself", true, "frame-layout|v2-send:length-prefix-value",
+		Edit{t, "binary.LittleEndian.PutUint64(msg[:8], uint64(msgSize-8))", "binary.LittleEndian.PutUint64(msg[:8], uint64(msgSize))"})
+	mut("C19", "sealed region starts inside the nonce", true, "frame-layout|v2-send:payload-start",
+		Edit{t, "payload := msg[8+len(nonce) : msgSize-t.aead.Overhead()]", "payload := msg[8 : msgSize-t.aead.Overhead()]"})
+	mut("C19", "tag overruns the frame by the nonce length", true, "frame-layout|v2-send:tag-fits",
+		Edit{t, "payload := msg[8+len(nonce) : msgSize-t.aead.Overhead()]", "payload := msg[8+len(nonce) : msgSize]"})
+	mut("C19", "receiver opens from the start of the buffer (nonce treated as ciphertext)", true, "frame-layout|v2-recv:ciphertext-after-nonce",
+		Edit{t, "paddedPayload := buf[t.aead.NonceSize():]", "paddedPayload := buf[:]"})
+	mut("C19", "buffer length measured before the flush", true, "frame-layout|v2-send:length-measured-after-flush",
+		Edit{t, "\tobj.EncodeTo(e)\n\te.Flush()\n\n\t// overwrite message length\n\tmsgSize := t.outbuf.Len() + t.aead.Overhead()", "\tobj.EncodeTo(e)\n\tmsgSize := t.outbuf.Len() + t.aead.Overhead()\n\te.Flush()\n"})
+	mut("C19", "ReadResponse swallows the host's error", true, "error-delivered|rhp/v2.(*Transport).ReadResponse:",
+		Edit{t, "\t} else if rr.err != nil {\n\t\treturn rr.err\n\t}", "\t} else if rr.err != nil {\n\t\treturn nil\n\t}"})
+	mut("C19", "(benign) ReadResponse tests for the absence of an error first", false, "",
+		Edit{t, "\t} else if rr.err != nil {\n\t\treturn rr.err\n\t}\n\treturn nil", "\t}\n\tif rr.err == nil {\n\t\treturn nil\n\t}\n\treturn rr.err"})
+}
+
+func init() {
+	// ---- fourth benign round: accepted restylings with a broken twin ----
+	cl := "\treturn acc.hasTreeAtHeight(len(l.MerkleProof)) && acc.Trees[len(l.MerkleProof)] == l.proofRoot()\n"
+	mut("C04", "(benign) containsLeaf with explicit early returns", false, "",
+		Edit{"consensus/merkle.go", cl, "\theight := len(l.MerkleProof)\n\tif height >= len(acc.Trees) {\n\t\treturn false\n\t} else if !acc.hasTreeAtHeight(height) {\n\t\treturn false\n\t}\n\treturn acc.Trees[height] == l.proofRoot()\n"})
+	mut("C04", "containsLeaf with early returns, one of them true (over-long proofs accepted)", true, "membership-predicate|root-equality",
+		Edit{"consensus/merkle.go", cl, "\theight := len(l.MerkleProof)\n\tif height >= len(acc.Trees) {\n\t\treturn true\n\t} else if !acc.hasTreeAtHeight(height) {\n\t\treturn false\n\t}\n\treturn acc.Trees[height] == l.proofRoot()\n"})
+	ns := "\tnextSig := func() (sig Signature, ok bool) {\n\t\tif ok = len(sigs) > 0; ok {\n\t\t\tsig, sigs = sigs[0], sigs[1:]\n\t\t}\n\t\treturn\n\t}\n"
+	mut("C14", "(benign) signature cursor with explicit returns", false, "",
+		Edit{"types/policy.go", ns, "\tnextSig := func() (Signature, bool) {\n\t\tif len(sigs) == 0 {\n\t\t\treturn Signature{}, false\n\t\t}\n\t\tsig := sigs[0]\n\t\tsigs = sigs[1:]\n\t\treturn sig, true\n\t}\n"})
+	mut("C14", "signature cursor with explicit returns that hands out a signature without consuming it", true, "cursor|",
+		Edit{"types/policy.go", ns, "\tnextSig := func() (Signature, bool) {\n\t\tif len(sigs) == 0 {\n\t\t\treturn Signature{}, false\n\t\t}\n\t\tsig := sigs[0]\n\t\treturn sig, true\n\t}\n"})
+	mut("C14", "signature cursor with explicit returns that takes the last signature", true, "cursor|",
+		Edit{"types/policy.go", ns, "\tnextSig := func() (Signature, bool) {\n\t\tif len(sigs) == 0 {\n\t\t\treturn Signature{}, false\n\t\t}\n\t\tsig := sigs[len(sigs)-1]\n\t\tsigs = sigs[1:]\n\t\treturn sig, true\n\t}\n"})
+	loop := "\t\tif ptxn.Transaction != nil {\n\t\t\tb.Transactions = append(b.Transactions, *ptxn.Transaction)\n\t\t\tb.MinerPayouts[0].Value = b.MinerPayouts[0].Value.Add(ptxn.Transaction.TotalFees())\n\t\t} else if ptxn.V2Transaction != nil {\n\t\t\tb.V2.Transactions = append(b.V2.Transactions, *ptxn.V2Transaction)\n\t\t\tb.MinerPayouts[0].Value = b.MinerPayouts[0].Value.Add(ptxn.V2Transaction.MinerFee)\n\t\t}\n\t}\n\treturn b, bo.Missing()\n"
+	pre := "\tfor i := range bo.Transactions {\n\t\tptxn := &bo.Transactions[i]\n\t\tif ptxn.Transaction == nil && ptxn.V2Transaction == nil {\n\t\t\tptxn.Transaction, ptxn.V2Transaction = v1hashes[ptxn.Hash], v2hashes[ptxn.Hash]\n\t\t}\n"
+	local := func(v2add, missCond, store string) string {
+		return "\tpayout := b.MinerPayouts[0].Value\n\tvar missing []types.Hash256\n" + pre +
+			"\t\tif ptxn.Transaction != nil {\n\t\t\tb.Transactions = append(b.Transactions, *ptxn.Transaction)\n\t\t\tpayout = payout.Add(ptxn.Transaction.TotalFees())\n\t\t} else if ptxn.V2Transaction != nil {\n\t\t\tb.V2.Transactions = append(b.V2.Transactions, *ptxn.V2Transaction)\n" + v2add + "\t\t}" + missCond + "\n\t}\n" + store + "\treturn b, missing\n"
+	}
+	okMiss := " else {\n\t\t\tmissing = append(missing, ptxn.Hash)\n\t\t}"
+	mut("C18", "(benign) Complete accumulates the payout locally and collects missing hashes in the same pass", false, "",
+		Edit{"gateway/outline.go", pre + loop, local("\t\t\tpayout = payout.Add(ptxn.V2Transaction.MinerFee)\n", okMiss, "\tb.MinerPayouts[0].Value = payout\n")})
+	mut("C18", "local payout accumulator, v2 fee not added", true, "fees|Complete:v2-fees-follow-transaction",
+		Edit{"gateway/outline.go", pre + loop, local("", okMiss, "\tb.MinerPayouts[0].Value = payout\n")})
+	mut("C18", "local payout accumulator never stored back", true, "fees|Complete:",
+		Edit{"gateway/outline.go", pre + loop, local("\t\t\tpayout = payout.Add(ptxn.V2Transaction.MinerFee)\n", okMiss, "\t_ = payout\n")})
+	mut("C18", "inline missing list also reports v2 entries that were found", true, "missing|Complete:reports-Missing",
+		Edit{"gateway/outline.go", pre + loop, "\tpayout := b.MinerPayouts[0].Value\n\tvar missing []types.Hash256\n" + pre +
+			"\t\tif ptxn.Transaction != nil {\n\t\t\tb.Transactions = append(b.Transactions, *ptxn.Transaction)\n\t\t\tpayout = payout.Add(ptxn.Transaction.TotalFees())\n\t\t} else {\n\t\t\tif ptxn.V2Transaction != nil {\n\t\t\t\tb.V2.Transactions = append(b.V2.Transactions, *ptxn.V2Transaction)\n\t\t\t\tpayout = payout.Add(ptxn.V2Transaction.MinerFee)\n\t\t\t}\n\t\t\tmissing = append(missing, ptxn.Hash)\n\t\t}\n\t}\n\tb.MinerPayouts[0].Value = payout\n\treturn b, missing\n"})
+	kinds := "\tkinds := make([]uint8, len(txns)+len(v2txns)+len(hashes))\n"
+	mut("C10", "(benign) outline decoder stops early once the decoder has failed", false, "",
+		Edit{"gateway/encoding.go", kinds, "\tif d.Err() != nil {\n\t\treturn\n\t}\n" + kinds})
+	mut("C10", "outline decoder returns early for an outline without hashes (count cross-check skipped)", true, "bound-guard|outline-",
+		Edit{"gateway/encoding.go", kinds, "\tif len(hashes) == 0 {\n\t\treturn\n\t}\n" + kinds})
+}
